@@ -26,9 +26,11 @@ class Gen:
 
     def emit_do(self, name, sc):
         self.scripts[name] = dict(sc)
-        self.steps.append("D %s %s %s %d %d %s %d %d %d" % (
+        self.steps.append("D %s %s %s %d %d %s %d %d %d%s" % (
             name, ",".join(sc["deps"]) or "-", ",".join(sc["ifc"]) or "-", sc["always"], sc["stamp"],
-            sc["out"], sc["payload"], sc["cat"], sc["exit"]))
+            sc["out"], sc["payload"], sc["cat"], sc["exit"], " 1" if sc.get("tol") else ""))
+        if sc.get("tol"):
+            self.count("tolerant_script")
 
     def rand_script(self, avail, allow_fail=True):
         r = self.r
@@ -46,6 +48,10 @@ class Gen:
             "cat": 1 if r.random() < 0.85 else 0,
             "exit": (r.choice([1, 2, 7, 42]) if allow_fail and r.random() < (0.3 if p == "failures" else 0.1) else 0),
         }
+        # "redo-ifchange deps || true": the script survives the failure of a dependency
+        sc["tol"] = 1 if (deps and r.random() < (0.3 if p == "failures" else 0.04)) else 0
+        if sc["tol"] and p == "failures" and r.random() < 0.6:
+            sc["cat"] = 0
         return sc
 
     def project(self):
@@ -62,7 +68,8 @@ class Gen:
             if r.random() < 0.5:
                 self.emit_do("default.x.do" if ext != ".x" else "default.do", self.rand_script(list(SOURCES), allow_fail=False))
             for i in range(r.randint(1, 2)):
-                g = "g%d%s" % (i, r.choice([".y.x", ".x"]))
+                # names that repeat the matched extension (g0.x.x, g1.y.x.y.x) included
+                g = "g%d%s" % (i, r.choice([".y.x", ".x", ".x.x", ".y.x.y.x", ".x.y.x"]))
                 if g not in self.gtargets:
                     self.gtargets.append(g)
             avail += self.gtargets
@@ -106,10 +113,41 @@ class Gen:
             self.steps.append("C ood k0 -")
             self.count("ood_after_build")
 
+    def tolerant_episode(self):
+        """a script that survives the failure of a dependency: built, asked for again, listed by redo-ood, repaired"""
+        r = self.r
+        cands = [t for t in self.targets if self.scripts.get(t + ".do", {}).get("deps")]
+        if not cands:
+            return
+        t = r.choice(cands)
+        sc = dict(self.scripts[t + ".do"])
+        inner = [d for d in sc["deps"] if d in self.targets]
+        if not inner:
+            return
+        d = r.choice(inner)
+        sc["tol"] = 1
+        sc["cat"] = 0 if r.random() < 0.7 else sc["cat"]
+        sc["exit"] = 0
+        self.emit_do(t + ".do", sc)
+        dsc = dict(self.scripts[d + ".do"])
+        dsc["exit"] = r.choice([1, 3, 9])
+        self.emit_do(d + ".do", dsc)
+        self.steps.append("C ifchange k0 %s" % t)
+        for _ in range(r.randint(1, 2)):
+            self.steps.append(r.choice(["C ifchange k0 %s" % t, "C ood k0 -", "C ifchange k0 %s" % t]))
+        if r.random() < 0.6:
+            dsc["exit"] = 0
+            dsc["payload"] = self.newtok()
+            self.emit_do(d + ".do", dsc)
+            self.steps.append("C ifchange k0 %s" % t)
+        self.count("tolerant_episode")
+
     def history(self, nsteps):
         r = self.r
         self.project()
         self.build_step()
+        if self.profile == "failures" and r.random() < 0.5:
+            self.tolerant_episode()
         for _ in range(nsteps):
             x = r.random()
             if x < 0.38:
